@@ -807,6 +807,78 @@ def _fn_body(m):
     return None
 
 
+def r28_name_temp_guard(text):
+    """statement `RECV.lock().METHOD(ARGS);` -> `{ let mut tg_N_ = RECV.lock(); tg_N_.METHOD(ARGS); }`: the temporary guard
+    gets a name (it is still dropped at the end of the statement), so that clauses can speak about the guarded value
+    before and after the call."""
+    m = mask(text)
+    n = len(set(re.findall(r"(?<![A-Za-z0-9_])tg_(\d+)_", m)))
+    for mt in re.finditer(r"\.\s*lock\s*\(\s*\)\s*\.\s*([a-z_][A-Za-z0-9_]*)\s*\(", m):
+        op = mt.end() - 1
+        cp = match_close(m, op)
+        k = skip_ws(m, cp + 1)
+        if m[k] != ";":
+            continue
+        dot = mt.start()
+        try:
+            rs = _recv_start(m, dot)
+        except Unsupported:
+            continue
+        j = skip_ws_back(m, rs)
+        if j >= 0 and m[j] not in ";{}":
+            continue
+        name = "tg_%d_" % (n + 1)
+        lock_end = m.index(")", m.index("(", dot)) + 1
+        return [Edit(rs, rs, "{ let mut %s = " % name, "R28"),
+                Edit(lock_end, lock_end, "; %s" % name, "R28"),
+                Edit(k + 1, k + 1, " }", "R28")]
+    return []
+
+
+def r27_extend_vec(text, idents=()):
+    """`RECV.extend(V);` with V a plain identifier listed in `extend_vec_idents` (an owned Vec) ->
+    `{ let mut ext_V_ = V; RECV.append(&mut ext_V_); }` — identical for Vec (extending by an owned Vec moves its elements
+    to the end, in order); `Vec::append` has a vstd specification, the generic `Extend::extend` has none."""
+    m = mask(text)
+    for idn in idents:
+        for mt in re.finditer(r"\.\s*extend\s*\(\s*%s\s*\)\s*;" % re.escape(idn), m):
+            dot = mt.start()
+            rs = _recv_start(m, dot)
+            j = skip_ws_back(m, rs)
+            if j >= 0 and m[j] not in ";{}":
+                continue
+            recv = text[rs:dot]
+            return [Edit(rs, mt.end(), "{ let mut ext_%s_ = %s; %s.append(&mut ext_%s_); }" % (idn, idn, recv, idn), "R27")]
+    return []
+
+
+def r18b_abstract_closure_bodies(text, ordinals=()):
+    """closure number N (1-based, in source order, as the splicer counts them) listed in `abstract_closure_bodies`:
+    its block body `{ ... }` -> `{ abstracted_value() }` — the closure returns an ARBITRARY value of its result type and no
+    longer captures anything. What is proved afterwards holds for every behaviour of that closure; nothing is proved
+    about the closure body, and the dropped text is reported."""
+    if not ordinals:
+        return []
+    from .splice import FnShape
+    try:
+        sh = FnShape(text)
+    except Exception:
+        return []
+    if not sh.closures:
+        return []          # contract-only stub of this function (body dropped): nothing to abstract
+    for n in ordinals:
+        if n < 1 or n > len(sh.closures):
+            raise Unsupported("R18: closure %d not found" % n)
+        cl = sh.closures[n - 1]
+        if not cl["block"]:
+            raise Unsupported("R18: closure %d has no block body" % n)
+        a, b = cl["body_s"], cl["body_e"]
+        if text[a:b].replace(" ", "") == "{abstracted_value()}":
+            continue
+        return [Edit(a + 1, b - 1, " abstracted_value() ", "R18")]
+    return []
+
+
 def r18_abstract_let(text, names=()):
     """`let NAME = EXPR;` (NAME listed in `abstract_lets`) -> `let NAME = abstracted_value();`: the initialiser
     (an iterator-adapter chain Verus cannot take) is replaced by a contract-less external function, i.e. by an
@@ -1111,7 +1183,7 @@ def r14_const_fn(text):
 # ---------------------------------------------------------------- R15 matches! with binding-free patterns is fine; nothing to do
 
 
-ITERATED = {"R6", "R7", "R10", "R11", "R15", "R16", "R17", "R18", "R19", "R20", "R22", "R23", "R24", "R25"}
+ITERATED = {"R6", "R7", "R10", "R11", "R15", "R16", "R17", "R18", "R19", "R20", "R22", "R23", "R24", "R25", "R27", "R28"}
 
 TABLE = {
     "R1": r1_visibility,
@@ -1138,10 +1210,12 @@ TABLE = {
     "R23": r23_rev_enumerate,
     "R24": r24_closure_tuple_param,
     "R25": r25_collect_pairs,
+    "R27": r27_extend_vec,
+    "R28": r28_name_temp_guard,
 }
-ORDER = ["R2", "R1", "R1p", "R14", "R4", "R3", "R5", "R6", "R15", "R13", "R11", "R7", "R8", "R12", "R17", "R18", "R19", "R20", "R25", "R22", "R24", "R23", "R10", "R16"]
+ORDER = ["R2", "R1", "R1p", "R14", "R4", "R3", "R5", "R6", "R15", "R13", "R11", "R7", "R8", "R12", "R17", "R18", "R19", "R20", "R25", "R22", "R24", "R23", "R27", "R28", "R10", "R16"]
 
-EXEC_TOUCHING = {"R3", "R4", "R6", "R7", "R8", "R10", "R11", "R12", "R13", "R14", "R15", "R16", "R17", "R18", "R19", "R20", "R21", "R22", "R23", "R24", "R25"}
+EXEC_TOUCHING = {"R3", "R4", "R6", "R7", "R8", "R10", "R11", "R12", "R13", "R14", "R15", "R16", "R17", "R18", "R19", "R20", "R21", "R22", "R23", "R24", "R25", "R27", "R28"}
 
 
 def apply_rewrites(text, enabled, opts=None):
@@ -1169,7 +1243,9 @@ def apply_rewrites(text, enabled, opts=None):
             elif rid == "R16":
                 eds = fn(cur, opts.get("r16_only"))
             elif rid == "R18":
-                eds = fn(cur, opts.get("abstract_lets", ()))
+                eds = fn(cur, opts.get("abstract_lets", ())) or r18b_abstract_closure_bodies(cur, opts.get("abstract_closure_bodies", ()))
+            elif rid == "R27":
+                eds = fn(cur, opts.get("extend_vec_idents", ()))
             elif rid == "R22":
                 eds = fn(cur, opts.get("r22_map_sources", ()))
             elif rid == "R2":
